@@ -24,6 +24,9 @@ PROBES = {
     'plain': 'hello world again and again\n',
     'inline-entity': '[x](/u&ouml "t&copy") ![y](/u&ouml) &ouml &copy\n\n```py&copy\ncode\n```\n',
     'setext': 'Foo\n---\n\nBar\n===\n\n###\n\n    code\n',
+    'heading-last': 'text\n\n> ## Quoted title ##\n\n# Release notes\n',        # leaves the scratch state of a heading WITH text behind
+    # every construct in its EMPTY spelling: scratch state that a reader fills only when there is something to put in shows here
+    'empties': '### ###\n\n# #\n\n##\n\n```\n```\n\n-\n\n>\n\n~~~ \n~~~\n\n1.\n\n| |\n|-|\n',
     'composite': ('Setext one\n---\n\n# ATX after `code` &amp; &copy; [ref] [ent]\n\n> quote with `span`\n> Foo\n> ---\n\n>\n\n-\n\n## closed ##\n\n##\n\n'
                   'hello `code` world <b>raw</b> $x$ [[a|b]] \\* *em* {{m}}\n\n~~~py\nfence\n~~~\n\n<div>\nhtml block\n</div>\n\n'
                   '- item `c`\n\n    indented\n\n| a | b |\n|---|---|\n| 1 | 2 |\n\n[ref]: /url "title"\n[ent]: /u&ouml "t&copy"\n'),
@@ -270,7 +273,7 @@ def replay_history(rec, fresh_tab, idx):
             drift.append('residue at quiescent point: %s' % res)
         # probes: self-contained calls compared with a fresh interpreter
         import functools
-        order = ['plain', 'setext', 'composite', 'inline-entity'] if idx % 2 else ['plain', 'inline-entity', 'setext', 'composite']
+        order = ['plain', 'setext', 'composite', 'heading-last', 'empties', 'inline-entity'] if idx % 2 else ['plain', 'inline-entity', 'empties', 'setext', 'composite', 'heading-last', 'empties']
         kinds = ['Html', ['Plain', 'GithubWiki', 'MathJax', 'LaTeX', 'Markdown', 'XWiki'][idx % 6]]
         for pname in order:
             for kind in kinds if pname != 'plain' else ['Html']:
